@@ -58,7 +58,7 @@ for _n in (0, 1, 2):
                                request_cache=EFFECT("request_cache", pop={"returns": OBJ("ipv8/messaging/anonymization/caches.py::RetryRequestCache", max_tries=INT)})),
                    "payload": OBJ(f"{PL}::CreatedPayload", circuit_id=INT, identifier=INT, key=BYTES, auth=BYTES, candidates_enc=BYTES)},
              instances=[{"n_est": _n}],
-             call="self._ours_on_created_extended(circ.circuit_id, payload)", raises=["CryptoException", "ValueError"],
+             call="self._ours_on_created_extended(circ.circuit_id, payload)", raises=["CryptoException", "ValueError", "RuntimeError"],
              stubs={f"{TC}::TunnelCommunity.send_extend": {"event": "send_extend", "note": "next extension (candidate choice)"},
                     "ipv8/messaging/serialization.py::Serializer.unpack": {"returns": "([], 0)", "note": "candidate list decoding (C02/C03)"}},
              ensures=[
@@ -75,7 +75,8 @@ for _n in (0, 1, 2):
                  "raised != 'CryptoException' or (len(circ._hops) == n_est and uh.keys is None"
                  " and payload.auth != uf_bytes('hmac', S_of(uh.dh_secret.ec.secret, payload.key, uf_bytes('crypt_pk', uh.peer.public_key.ec.secret))[:32], payload.key))",
                  # the (legitimately keyed) hop was added but its candidate list did not decrypt: still only a confirmed hop
-                 "raised != 'ValueError' or (len(circ._hops) == n_est + 1 and circ._hops[n_est] is uh"
+                 # (A4: the AEAD raises ValueError on a short input and RuntimeError on a failed tag; on_packet_from_circuit logs both)
+                 "raised not in ('ValueError', 'RuntimeError') or (len(circ._hops) == n_est + 1 and circ._hops[n_est] is uh"
                  " and payload.auth == uf_bytes('hmac', S_of(uh.dh_secret.ec.secret, payload.key, uf_bytes('crypt_pk', uh.peer.public_key.ec.secret))[:32], payload.key))",
                  "all(circ._hops[i] is [e1, e2][i] for i in range(n_est))"],
              covers=["raised is None and len(circ._hops) == n_est + 1", "raised == 'CryptoException'"],
